@@ -471,6 +471,20 @@ func runUUID(candFile string) {
 			pairCase(a, b, "float64-special", 0, 0)
 		}
 	}
+	// float64 corner values (signed zeros, NaNs with two payloads, infinities) against each other and
+	// against an independent construction of themselves, also as objects of triples: Triple.Equal and
+	// Graph.Exist must agree with the UUIDs whatever the comparison of the boxed Go values says.
+	corner := []float64{0, math.Copysign(0, -1), math.NaN(), math.Float64frombits(0x7ff8000000000001),
+		math.Float64frombits(0xfff8000000000000), math.Inf(1), math.Inf(-1), 1}
+	for _, x := range corner {
+		for _, y := range corner {
+			a, _ := build(floatSpec(x))
+			b, _ := build(floatSpec(y))
+			pairCase(a, b, "float64-corner", 0, 0)
+			lift(floatSpec(x), floatSpec(y), "float64-corner")
+		}
+		stableCase(tripleSpec(ctxS, ctxP, floatSpec(x)), "float64-corner")
+	}
 	for _, t := range anchorBoundaries() {
 		stableCase(tmpSpec("when", t), "anchor-boundary")
 		a, _ := build(tmpSpec("when", t))
